@@ -2165,7 +2165,9 @@ def lex_tokens(line):
     match = RE_STRING.match(line.contents)
     if match is not None:
         value = match.group(1)
-        # process backslash escapes without mangling non-ASCII characters
+        # process backslash escapes without mangling non-ASCII characters: those beyond
+        # latin-1 travel as \uXXXX, so a lone backslash in front of one is doubled first
+        value = re.sub(r'\\+(?=[^\x00-\xff])', lambda m: m.group(0) + '\\' * (len(m.group(0)) % 2), value)
         value = value.encode('latin-1', 'backslashreplace').decode('unicode_escape')
         tokens = ['string', value]
         return LineTokens(line, tokens)
